@@ -275,7 +275,8 @@ def streams_case(ctx, g):
                 if new_calls:
                     ev = [{"draw": int(np.size(cl["out"]))} for cl in new_calls]
             elif spec["in_memory"]:
-                ev = ctx.model({"op": "rng.callEvents", "rounds": rounds, "inMemory": True, "nMvn": len(mvn)})["events"]
+                ev = ctx.model({"op": "rng.callEvents", "rounds": rounds, "inMemory": True, "nMvn": len(mvn),
+                                "nShuffle": n_sh})["events"]
             else:
                 ev = ctx.model({"op": "rng.callEvents", "rounds": rounds, "inMemory": False, "nShuffle": n_sh,
                                 "nTasks": n_tasks})["events"]
